@@ -30,7 +30,7 @@ theorem slashPath_string : slashPath "pop_0".toList "12".toList "comp".toList = 
 theorem bracketPath_string : bracketPath false "pop_0".toList "12".toList = "pop_0[12]".toList ∧
     bracketPath true "pop_0".toList "12".toList = "../pop_0[12]".toList := by decide
 
-private theorem dots_split (b : List Char) : split '/' ('.' :: '.' :: '/' :: b) = ['.', '.'] :: split '/' b := by
+theorem dots_split (b : List Char) : split '/' ('.' :: '.' :: '/' :: b) = ['.', '.'] :: split '/' b := by
   have := split_append '/' ['.', '.'] b (by decide)
   simpa using this
 
@@ -344,7 +344,7 @@ def floatRes (fs : FloatSem F) (num : List Char) (factor : Option F) : Res F :=
     | none => .ok (.num x)
     | some k => .ok (.num (fs.mul x k))
 
-private theorem no_m_s {num ws : List Char} (h : TimeSpelling num ws) :
+theorem no_m_s {num ws : List Char} (h : TimeSpelling num ws) :
     'm' ∉ num ++ ws ∧ 's' ∉ num ++ ws := by
   constructor <;> intro hm <;> rcases List.mem_append.mp hm with hm | hm
   · have := h.num_chars _ hm; revert this; decide
@@ -352,7 +352,7 @@ private theorem no_m_s {num ws : List Char} (h : TimeSpelling num ws) :
   · have := h.num_chars _ hm; revert this; decide
   · have := h.ws_space _ hm; revert this; decide
 
-private theorem strip_num {num ws : List Char} (h : TimeSpelling num ws) : strip (num ++ ws) = num :=
+theorem strip_num {num ws : List Char} (h : TimeSpelling num ws) : strip (num ++ ws) = num :=
   strip_append_ws num ws (fun c hc => isSpace_of_isTimeNumChar c (h.num_chars c hc)) h.ws_space
 
 /-- **C19, `get_delay_in_ms`, unit `ms`**: for every spelling `<num><ws>ms` of the time pattern the result is
@@ -506,7 +506,7 @@ theorem c19_get_size (fs : FloatSem F) (self : Obj F) (n : Nat) (sz : Val F)
     subst hn; subst hk
     simp [getSize, attr_some self _ _ hi, attr_some self _ _ hz, pLen, pGtInt, pIfElse, truthy, pint]
 
-private theorem total_unfold (net : Net) (t : Tot) :
+theorem total_unfold (net : Net) (t : Tot) :
     total summaryTable net t = summaryTable.foldl (fun acc a =>
       if a.total = t then acc + ((net a.loop).map (fun it => addendVal it a.what)).sum else acc) 0 := by
   unfold total
